@@ -18,6 +18,7 @@ NAMES = {
     "b": wire.iso_name(unique=1002, mfr=1855, inst_lower=0, inst_upper=0, function=140, dev_class=10, sys_inst=0, industry=4),   # Furuno
     "c": wire.iso_name(unique=1003, mfr=229, inst_lower=5, inst_upper=20, function=150, dev_class=40, sys_inst=9, industry=4),   # Garmin, other unit (all-ones instance parts are ambiguous in the database: avoided)
     "u": wire.iso_name(unique=1004, mfr=2046, inst_lower=2, inst_upper=1, function=130, dev_class=25, sys_inst=1, industry=4),   # manufacturer code not in the database
+    "z": 0,                                                                                                                      # a NAME of all zeros is a claim like any other
     # re-claims that differ from "a" in exactly one part of the NAME (a comparison of only part of the NAME shows here)
     "d": wire.iso_name(**dict(_A, inst_lower=4, inst_upper=9, function=140, dev_class=10)),   # same unique number and manufacturer, other instance/function/class
     "e": wire.iso_name(**dict(_A, unique=1001 + (1 << 20))),                                  # only a high bit of the unique number differs
@@ -26,7 +27,7 @@ NAMES = {
     "h": wire.iso_name(**dict(_A, mfr=1855)),                                                 # only the manufacturer differs
     "i": wire.iso_name(**dict(_A, aac=0)),                                                    # only the arbitrary-address-capable bit differs
 }
-SOURCES = (1, 2)
+SOURCES = (0, 2)      # address 0 is legal (and falsy)
 
 
 def ref_identity(name):
@@ -195,7 +196,7 @@ def configs(ctx):
 
 def run(ctx):
     cfgs = configs(ctx)
-    names_used = "abcudefghi" if ctx.thorough else "abud"
+    names_used = "abcuzdefghi" if ctx.thorough else "abuzd"
     results = common.pmap(run_config, [c + (names_used, 60000) for c in cfgs])
     vios, samples, per = [], [], {}
     states = trans = nontriv = depth = 0
@@ -225,7 +226,7 @@ def run(ctx):
 
 def replay(ctx, rep):
     c = rep["case"]
-    cfg_args = (c["map_on"], c["mode"], tuple(c["mlist"]), c["claim_filtered"], "abcudefghi", 10)
+    cfg_args = (c["map_on"], c["mode"], tuple(c["mlist"]), c["claim_filtered"], "abcuzdefghi", 10)
     hist = c["history"]
     orig = xstate.bfs
 
